@@ -144,11 +144,15 @@ def harnesses(tier, seed):
         sd = "strict, dtn" if th else f"False, {par}"
         sdp = ", strict: bool, dtn: bool" if th else ""
         call = f"ob_validate(C, v, -1, 0, {sd})"
+        c2 = dict(c, cfg=c["cfg"].but(K=2 if th else 1, ints="pool", bytes="pool"))
+        sv = shape.samples(c2["ir"], c2["names"], c2["cfg"], seed + 9, n=2)
+        ex = (False, False) if th else ()
         hs.append(Harness(f"validate.conforming.{name}", "props.l10", f"v: {a}{sdp}", call + "[0]", replay_call=call,
-                          setup=setup, what=f"validate on conforming data of {name}"))
+                          setup=setup, what=f"validate on conforming data of {name}", samples=[(v,) + ex for v in sv]))
         call = f"ob_validate(C, (B, si), pos, kind, {sd})"
         hs.append(Harness(f"validate.mutated.{name}", "props.l10", f"si: int, pos: int, kind: int{sdp}", call + "[0]",
-                          replay_call=call, setup=setup, what=f"validate on mutated data of {name}"))
+                          replay_call=call, setup=setup, what=f"validate on mutated data of {name}",
+                          samples=[(0, 0, 7) + ex, (1, 0, shape.DELETE) + ex, (0, 1, 2) + ex]))
         dt = "dtn" if th else f"{not par}"
         dtp = ", dtn: bool" if th else ""
         call = f"ob_writer_agrees(C, v, -1, 0, {dt})"
@@ -156,7 +160,8 @@ def harnesses(tier, seed):
                           setup=setup, what=f"writer agreement on conforming data of {name}"))
         call = f"ob_writer_agrees(C, (B, si), pos, kind, {dt})"
         hs.append(Harness(f"writer.mutated.{name}", "props.l10", f"si: int, pos: int, kind: int{dtp}", call + "[0]",
-                          replay_call=call, setup=setup, what=f"writer agreement on mutated data of {name}", key=_wkey))
+                          replay_call=call, setup=setup, what=f"writer agreement on mutated data of {name}", key=_wkey,
+                          samples=[(0, 0, 7) + ((False,) if th else ()), (1, 1, 3) + ((False,) if th else ())]))
         if IR.deref(c["ir"], c["names"])["k"] in ("record", "union", "array", "map"):
             call = "ob_strict(C, (B, si), pos)"
             hs.append(Harness(f"strict.{name}", "props.l10", "si: int, pos: int", call + "[0]", replay_call=call,
